@@ -262,6 +262,11 @@ static uint64_t run_op(const KV& k, ThreadState& ts, uint64_t h) {
             for (int i = 0; i < 4; ++i) { IPv6Address a(c6[(i + v) % 4]); h = Hu(h, (a.is_loopback() ? 1 : 0) | (a.is_multicast() ? 2 : 0) | (a.is_local_unicast() ? 4 : 0)); }
             HWAddress<6> m(fmt("%02x:11:22:33:44:55", v & 0xff)); h = Hu(h, (m.is_broadcast() ? 1 : 0) | (m.is_multicast() ? 2 : 0) | (m.is_unicast() ? 4 : 0));
         }
+        else if (op == "pcapwrite") {   // a thread-private PacketWriter (its own savefile handle; the bytes go to /dev/null), packets stamped explicitly
+            uint32_t v = (uint32_t)k.u64("v"); PacketWriter w("/dev/null", DataLinkType<EthernetII>());
+            for (int i = 0; i < 3; ++i) { EthernetII e = EthernetII("00:01:02:03:04:05", "00:0a:0b:0c:0d:0e") / IP(IPv4Address(fmt("10.2.%u.%u", v & 0xff, i)), IPv4Address("10.0.0.1")) / UDP((uint16_t)(v >> 16), 53) / RawPDU(fmt("w-%u-%d", v, i));
+                struct timeval tv; tv.tv_sec = (time_t)(1600000000u + (v & 0xffff) + i); tv.tv_usec = (suseconds_t)((v >> 8) % 1000000); Packet pk(e, Timestamp(tv)); w.write(pk); h = Hu(h, e.size()); }
+        }
         else if (op == "userpdu") {     // frames whose upper layer is an application-defined PDU type registered before the threads started
             uint32_t v = (uint32_t)k.u64("v"); Bytes pl = k.bytes("pl");
             for (int i = 0; i < 3; ++i) { const bool second = ((v >> i) & 1) != 0;
@@ -368,7 +373,7 @@ struct ThrEngine : Engine {
                             if (cfg.chance(0.5)) { k.set("op", "pmk").set("psk", fmt("pass%llu", (unsigned long long)(cfg.next() % 100000))).set("ssid", fmt("net%llu", (unsigned long long)(cfg.next() % 1000))); break; }
                             k.set("op", "wpa2").set("set", cfg.chance(0.4) ? "ccmp_packets" : cfg.chance(0.5) ? "tkip_packets" : "ccmp_qos_packets"); break;
                     case 4: k.set("op", "dns").set("id", (int64_t)cfg.range(0, 65535)).set("n", (int64_t)cfg.range(1, 6)); break;
-                    case 5: { Rng ax = root.fork(fmt("addrx%d.%d", t, i).c_str()); int sel = (int)ax.below(10); if (sel < 3) { k.set("op", "addrclass").setu("v", ax.next() & 0xffffffffu); break; } if (sel < 6) { k.set("op", "userpdu").setu("v", ax.next() & 0xffffffffu).set("pl", ax.bytes((size_t)ax.range(1, 60))); break; } }
+                    case 5: { Rng ax = root.fork(fmt("addrx%d.%d", t, i).c_str()); int sel = (int)ax.below(10); if (sel < 3) { k.set("op", "addrclass").setu("v", ax.next() & 0xffffffffu); break; } if (sel >= 8) { k.set("op", "pcapwrite").setu("v", ax.next() & 0xffffffffu); break; } if (sel < 6) { k.set("op", "userpdu").setu("v", ax.next() & 0xffffffffu).set("pl", ax.bytes((size_t)ax.range(1, 60))); break; } }
                         k.set("op", "addr").setu("v", cfg.next() & 0xffffffffu); break;
                     case 6: if (cfg.chance(0.25)) { k.set("op", "legacy").setu("v", cfg.next() & 0xffffffffu); break; } k.set("op", "build").setu("v", cfg.next() & 0xffffffffu); break;
                     default: { if (cfg.chance(0.2)) { k.set("op", "wep").set("bad", cfg.chance(0.3) ? 1 : 0); break; }
@@ -395,7 +400,7 @@ struct ThrEngine : Engine {
             const int dl[7] = { gen::DLT_EN10MB_, gen::DLT_RAW_, gen::DLT_IEEE802_11_, gen::DLT_IEEE802_11_RADIO_, gen::DLT_LINUX_SLL_, gen::DLT_NULL_, gen::DLT_PPI_ };
             for (int i = 0; i < 7; ++i) for (int j = 0; j < 40; ++j) { gen::Frame f = gen::frame_for(wr, dl[i]); KV k; k.set("op", "parse").set("dlt", dl[i]).set("f", f.bytes); run_op(k, ts, 0); }
             const char* sets[3] = { "ccmp_packets", "tkip_packets", "ccmp_qos_packets" }; for (int i = 0; i < 3; ++i) { KV k; k.set("op", "wpa2").set("set", sets[i]); run_op(k, ts, 0); }
-            { KV k; k.set("op", "frag").set("pl", Bytes(64, 1)).set("mtu", 16).set("id", 1).set("ord", 0); run_op(k, ts, 0); KV d; d.set("op", "dns").set("id", 1).set("n", 2); run_op(d, ts, 0); KV a; a.set("op", "addr").setu("v", 12345); run_op(a, ts, 0); { KV ac; ac.set("op", "addrclass").setu("v", 54321); run_op(ac, ts, 0); KV up; up.set("op", "userpdu").setu("v", 0x1ff).set("pl", Bytes(8, 7)); run_op(up, ts, 0); up.setu("v", 0x0aa); run_op(up, ts, 0); } KV b; b.set("op", "build").setu("v", 777); run_op(b, ts, 0); { KV lg; lg.set("op", "legacy").setu("v", 5); run_op(lg, ts, 0); } KV w; w.set("op", "wep").set("bad", 0); run_op(w, ts, 0);
+            { KV k; k.set("op", "frag").set("pl", Bytes(64, 1)).set("mtu", 16).set("id", 1).set("ord", 0); run_op(k, ts, 0); KV d; d.set("op", "dns").set("id", 1).set("n", 2); run_op(d, ts, 0); KV a; a.set("op", "addr").setu("v", 12345); run_op(a, ts, 0); { KV ac; ac.set("op", "addrclass").setu("v", 54321); run_op(ac, ts, 0); KV pw; pw.set("op", "pcapwrite").setu("v", 99); run_op(pw, ts, 0); KV up; up.set("op", "userpdu").setu("v", 0x1ff).set("pl", Bytes(8, 7)); run_op(up, ts, 0); up.setu("v", 0x0aa); run_op(up, ts, 0); } KV b; b.set("op", "build").setu("v", 777); run_op(b, ts, 0); { KV lg; lg.set("op", "legacy").setu("v", 5); run_op(lg, ts, 0); } KV w; w.set("op", "wep").set("bad", 0); run_op(w, ts, 0);
               KV p; p.set("op", "pmk").set("psk", "warmup-pass").set("ssid", "warmup-net"); run_op(p, ts, 0);
               TcpSeg sg; sg.sport = 1; sg.dport = 2; sg.seq = 5; sg.flags = TH_SYN; KV fo; fo.set("op", "follow").set("ts", 1).set("f", tcp_frame(sg, Addr::v4(1, 1, 1, 1), Addr::v4(2, 2, 2, 2), Mac::of(1), Mac::of(2))); run_op(fo, ts, 0); }
             ts = ThreadState(); mon::tl_logical = -1; } }
